@@ -7,8 +7,10 @@
 #include <cstring>
 #include <functional>
 #include <iostream>
+#include <memory>
 #include <random>
 #include <sstream>
+#include <stdexcept>
 #include "checked_device.h"
 using namespace primitiv;
 namespace F = primitiv::functions;
@@ -448,18 +450,38 @@ static void invalid_objects() {
     if (mopt.get_epoch() != 1) fail("epoch after update", "not incremented"); else ok("epoch");
   }
   // known finding D21: SGD accepts an uninitialised parameter (by design, the pinned tests do it);
-  // update() then raises Error after possibly updating other parameters
+  // update() then raises Error after updating the parameters it visited earlier.  The visiting order is
+  // the iteration order of an unordered_set<Parameter *> (hash of the addresses, insertion history), so
+  // the invalid parameter is registered in EVERY position among NV valid ones, each arrangement on a
+  // fresh optimizer with fresh parameters: state-changed=1 iff in SOME arrangement a valid parameter's
+  // value or the epoch changed although update() raised.  A wrong exception TYPE from add()/update(), or
+  // an update() that returns normally with the invalid parameter registered, is an ordinary FAIL.
   {
-    optimizers::SGD sopt(0.5f);
-    Parameter q(Shape({2}), V{1, 2}, dev);
-    sopt.add(q);
-    std::string ra = outcome([&]() { sopt.add(pinv); });
-    q.gradient() += dev.new_tensor_by_constant(Shape({2}), 1.0f);
-    V before = q.value().to_vector();
-    std::uint32_t ep = sopt.get_epoch();
-    std::string ru = outcome([&]() { sopt.update(); });
-    bool changed = !same(q.value().to_vector(), before) || sopt.get_epoch() != ep;
-    std::cout << "D21 add=" << ra << " update=" << ru << " state-changed=" << (changed ? 1 : 0) << "\n";
+    const unsigned NV = 4; unsigned changed_in = 0, arrangements = 0; std::string ra = "ok", ru = "Error";
+    for (unsigned pos = 0; pos <= NV; ++pos) {
+      optimizers::SGD sopt(0.5f);
+      std::vector<std::unique_ptr<Parameter>> qs;
+      for (unsigned i = 0; i < NV; ++i) qs.emplace_back(new Parameter(Shape({2}), V{1.f + i, 2.f + i}, dev));
+      std::string a = "ok";
+      for (unsigned i = 0; i <= NV; ++i) {
+        if (i == pos) a = outcome([&]() { sopt.add(pinv); });
+        if (i < NV) sopt.add(*qs[i]);
+      }
+      std::vector<V> before;
+      for (auto &q : qs) { q->gradient() += dev.new_tensor_by_constant(Shape({2}), 1.0f); before.push_back(q->value().to_vector()); }
+      std::uint32_t ep = sopt.get_epoch();
+      std::string u = outcome([&]() { sopt.update(); });
+      bool changed = sopt.get_epoch() != ep;
+      for (unsigned i = 0; i < NV; ++i) if (!same(qs[i]->value().to_vector(), before[i])) changed = true;
+      ++arrangements;
+      if (a != "ok") ra = a;
+      if (a == "ok" && u != "Error") ru = u;
+      if (a == "ok" && u == "Error" && changed) ++changed_in;
+    }
+    if (ra != "ok" && ra != "Error") fail("SGD::add(invalid parameter)", "neither accepted nor primitiv::Error: " + ra);
+    else if (ra == "ok" && ru == "ok") fail("SGD::update() with a registered invalid parameter", "returned normally (the failure is not reported)");
+    else if (ra == "ok" && ru != "Error") fail("SGD::update() with a registered invalid parameter", "expected primitiv::Error, got " + ru);
+    std::cout << "D21 add=" << ra << " update=" << ru << " state-changed=" << (changed_in ? 1 : 0) << " arrangements=" << arrangements << " changed-in=" << changed_in << "\n";
   }
   // model lookups
   Model m; m.add("p", p);
@@ -487,9 +509,17 @@ static void invalid_objects() {
     EXPECT_ERROR("model add ancestor (cycle)", m.add("up", top));
     if (m.get_all_parameters().size() != n0 + 1) fail("model after rejected adds", "enumeration changed"); else ok("model unchanged");
   }
-  // known finding D7: unknown statistics name raises std::out_of_range
-  std::string d7 = outcome([&]() { p.stats("nope"); });
-  std::cout << "D7 " << d7 << "\n";
+  // known finding D7: unknown statistics name raises std::out_of_range (exactly that type: any other
+  // non-Error exception, e.g. bad_alloc or logic_error, or no exception at all is an ordinary FAIL)
+  {
+    std::string d7;
+    try { p.stats("nope"); d7 = "ok"; }
+    catch (Error &) { d7 = "Error"; }
+    catch (std::out_of_range &) { d7 = "out_of_range"; }
+    catch (std::exception &e) { d7 = std::string("other-exception:") + e.what(); }
+    if (d7 != "Error" && d7 != "out_of_range") fail("Parameter::stats(unknown name)", "expected primitiv::Error (known finding: std::out_of_range), got " + d7);
+    std::cout << "D7 " << d7 << "\n";
+  }
 }
 
 
